@@ -482,6 +482,13 @@ def dispatch(ctx):
                     pass
                 elif (di, dv, dc) == (4, 8, 1):
                     eps_seen = True
+                    # activity threshold: a set counts as active only above a positive constant large enough that products of two
+                    # active degrees cannot underflow to 0 (otherwise sum(mat) can be 0 and the gains become 0*inf = NaN)
+                    thr = [sp.sympify(c.b) for c in s1.pc if isinstance(c, alg.Cond) and c.rel() == '>' and sp.sympify(c.a) == want and sp.sympify(c.b).is_number]
+                    if not thr:
+                        probs.append('%s: a set is recorded as active without a test degree > constant' % E)
+                    elif not all(t > sp.Float('1.5e-154') for t in thr):
+                        probs.append('%s: activity threshold is %s; it must be a positive constant (documented: A_REAL_EPSILON) so that joint memberships of active sets cannot all vanish' % (E, thr[0]))
                     st_i = s1.store.get(('idx', dom.off_key(oi)))
                     st_v = s1.store.get(('val', dom.off_key(ov)))
                     if st_i is None or not alg.is_zero(sp.sympify(st_i[0]) - tx.sym[roles['i']]):
